@@ -10,7 +10,7 @@ if isinstance(stable, str):
     import ast; stable = ast.literal_eval(stable)
 with tempfile.TemporaryDirectory() as d:
     xml = os.path.join(d, 'j.xml')
-    env = dict(os.environ); env.pop('BFG9000_VERIF', None)
+    env = dict(os.environ); env.pop('BFG9000_VERIF', None); env['PYTHONPATH'] = repo
     subprocess.run(['/venv/bin/python', '-m', 'pytest', '-q', '-p', 'no:cacheprovider',
                     '--timeout=900', '--continue-on-collection-errors', '-x' if False else '-q',
                     '--junitxml=' + xml, 'test/unit'], cwd=repo, env=env,
